@@ -4,7 +4,10 @@ Bounded exhaustive product on the real parser: fixture class families (mc/fixtur
 declaration style x logical class spec (class named by path / by name / not named; init args none / valid /
 unknown / ill-typed / missing required; dict_kwargs) x notation (explicit dict, string, init_args without
 class_path, flat init args, dotted argv options in explicit and short spelling) x channel (parse_object,
---config, --x=<json>, dotted argv, argument default) x one or two sources (class changes).
+--config, --x=<json>, dotted argv, argument default) x one, two or three sources (class changes); sibling
+class-typed positions with prefix-related names (parameters of a nested class / of a class group / separate
+top-level arguments, both declaration orders); whole lists / dicts of classes given again by a later source
+(every element position x relation to the class configured there; shrinking, growing, empty containers).
 
 Every case is judged by the reference model in c14_model.py (pure reflection on the fixtures, no jsonargparse):
 accept iff the model accepts; the parsed configuration, read back structurally (class_path re-imported by the
@@ -30,7 +33,8 @@ META = {
     "reflection-based validator (issubclass / inspect.signature / conforms) and a constructor log",
     "level_text": "Every combination of declared type, class token (subclasses, unrelated classes, abstract classes, "
     "factory functions, importable instances, modules, constants, unimportable paths), init-args mutation, notation "
-    "and channel within the stated bounds is executed on the real parser and compared with a reference model that "
+    "and channel within the stated bounds - including sibling class-typed positions with prefix-related names and "
+    "lists / dicts of classes given again by a later source - is executed on the real parser and compared with a reference model that "
     "decides acceptance and the effective configuration by reflection on the fixture classes; accepted "
     "configurations are instantiated and a constructor log decides exact class, exactly-once construction, exact "
     "arguments and nested-first order. Nothing is sampled; the verdict is exhaustive within the bounds.",
@@ -70,6 +74,14 @@ def is_spec(v):
     return isinstance(v, dict)
 
 
+_WRITTEN_REVERSED = False  # set by invocation() for cases with "rev": init args are written last-to-first
+
+
+def _args_in_written_order(spec):
+    items = list((spec.get("a") or {}).items())
+    return items[::-1] if _WRITTEN_REVERSED else items
+
+
 def render_json(spec, form):
     """JSON value for one position."""
     if spec is None:
@@ -78,7 +90,7 @@ def render_json(spec, form):
         return [render_json(s, _nested_form(s, form)) for s in spec["list"]]
     if "dict" in spec:
         return {k: render_json(s, _nested_form(s, form)) for k, s in spec["dict"].items()}
-    args = {k: (render_json(v, _nested_form(v, form)) if is_spec(v) else v) for k, v in (spec.get("a") or {}).items()}
+    args = {k: (render_json(v, _nested_form(v, form)) if is_spec(v) else v) for k, v in _args_in_written_order(spec)}
     dk = dict(spec.get("k") or {})
     if form == "S":
         assert spec.get("c") and not args and not dk
@@ -146,7 +158,7 @@ def _dot_args(prefix, spec, form):
     out = []
     sub = f"{prefix}.init_args" if form in ("E", "I") else prefix
     dot = sub + "." if sub else ""  # empty prefix: the parameters are top-level arguments (style "top")
-    for k, v in (spec.get("a") or {}).items():
+    for k, v in _args_in_written_order(spec):
         if is_spec(v):
             nested_form = form if (v.get("c") or "append" in v or "key" in v or "list" in v or "dict" in v) else ("I" if form in ("E", "I") else "F")
             if v.get("c") and form in ("I", "F"):
@@ -417,6 +429,15 @@ def expected_of(case, T):
 
 def invocation(case):
     """-> (default or _NONE, "parse_args" | "parse_object", argument)."""
+    global _WRITTEN_REVERSED
+    _WRITTEN_REVERSED = bool(case.get("rev"))
+    try:
+        return _invocation(case)
+    finally:
+        _WRITTEN_REVERSED = False
+
+
+def _invocation(case):
     default, argv, obj = _NONE, [], None
     top = case.get("st") == "top"
     for ch, form, spec in case["srcs"]:
@@ -580,9 +601,16 @@ def evaluate(case):
         return devs, stats
     stat("model_accept")
     if o["kind"] == "ArgumentError":
+        if trace.get("classless_in_resized"):
+            # one root cause of its own: an element without class_path in a list / dict given again with another
+            # length (or after an empty one) - named by that shape, whatever the notation and the declared type
+            devs.append(("reject-valid:classless-element-in-resized-container", f"{shown} rejected: {o['message'][:300]}; model expects {M.describe(exp)}"))
+            return devs, stats
         devs.append((f"reject-valid:form-{last_form}:{kind}{multi}", f"{shown} rejected: {o['message'][:300]}; model expects {M.describe(exp)}"))
         return devs, stats
     stat("accepted")
+    if case.get("st") == "top":
+        stat("toplevel_accepted")
     for k in ("kept", "dropped", "class_change", "regiven"):
         if trace.get(k):
             stat(k)
@@ -720,6 +748,10 @@ def explore(ctx):
             "class_tokens": len(M.TOKENS),
             "sources_per_case": "1-3",
             "list_length": 2 if quick else 3,
+            "sibling_positions": "HoldPair(inner, inner2) / HoldPairR(inner2, inner): nested class, class group, top-level arguments",
+            "regiven_containers": "List/Dict of 0-3 elements given again: elements x {own, shared, foreign init arg without class_path, same class, other class}"
+            + (" (3 elements: single-position mutations + uniform; first containers: rotations)" if quick else " (full product, all permutations)")
+            + ", shrunk / grown / from empty / to empty, --x.<key>=<json>, --x.<param>=v on the last element",
             "value_alphabet": {"valid": S.VALID, "invalid": S.INVALID},
         },
         model_reject_reasons=rejected_reasons,
@@ -727,6 +759,8 @@ def explore(ctx):
     ctx.assume("a str given for a non-str parameter is read as JSON/YAML before it is judged (all channels)")
     ctx.assume("class change between sources keeps the init args that are valid for the new class and drops the others")
     ctx.assume("the argument default is a source that carries the class' own parameter defaults explicitly")
+    ctx.assume("a whole list / dict given again replaces the previous one; its elements correspond to the previous ones by index "
+               "(list of unchanged length) / by key, otherwise an element has no previous class")  # fmt: skip
     if only:
         ctx.require(n_cases > 0, "the selected families are not empty")
         return
@@ -737,6 +771,9 @@ def explore(ctx):
     ctx.require(totals.get("kept", 0) >= 100 and totals.get("dropped", 0) >= 100, "class changes both keep and drop init args (>= 100 each)")
     ctx.require(totals.get("not_instantiable", 0) >= 20, "abstract / unbindable configurations occur")
     ctx.require(totals.get("differential_only", 0) >= 100, ">= 100 dict_kwargs-after-class-change histories judged by the notation differential")
+    ctx.require(totals.get("regiven", 0) >= 300, ">= 300 accepted histories in which a whole list / dict of classes is given again")
+    ctx.require(totals.get("toplevel_accepted", 0) >= 60, ">= 60 accepted cases with sibling class-typed top-level arguments")
+    ctx.require(totals.get("siblings/instantiated", 0) >= 200 and totals.get("recontainer/instantiated", 0) >= 200, "siblings and recontainer families: >= 200 instantiated configurations each")
     for reason in ("wrong-class", "callable-return-not-subclass", "not-a-class:module", "not-a-class:object", "not-importable",
                    "unknown-init-arg", "ill-typed-init-arg", "missing-required", "ambiguous-name", "unresolvable-name", "no-implicit-class"):  # fmt: skip
         ctx.require(rejected_reasons.get(reason, 0) >= 10, f"model rejection reason {reason} occurs >= 10 times")
